@@ -27,7 +27,7 @@ pub fn para_fragments<'a>(para: &'a str, o: &OptSpec, splitter: &'a textwrap::Wo
     for w in &words {
         offs.push(p);
         let e = p + w.word.len() + w.whitespace.len();
-        if e > para.len() || &para[p..p + w.word.len()] != w.word || &para[p + w.word.len()..e] != w.whitespace {
+        if para.get(p..p + w.word.len()) != Some(w.word) || para.get(p + w.word.len()..e) != Some(w.whitespace) {
             lossless = false;
             break;
         }
